@@ -330,7 +330,7 @@ theorem relocated_closed (m : Mode) (rd : M Cur Nat) (g : Nat → Nat → Out Na
        | (.err x, r') => (.err x, { s with rdr := r' })
        | (.panic w, r') => (.panic w, { s with rdr := r' })
        | (.diverge, r') => (.diverge, { s with rdr := r' })) := by
-  have hoff : sharedImpl.offsetFrom m s.rdr s.sect = .ok (some s.rdr.off) := by
+  have hoff : sharedImpl.offsetFrom m s.rdr s.sect = .ok s.rdr.off := by
     rw [hsect]
     have := ptrOffsetFrom_within m (s := Cur.ofSec b) (r := s.rdr) (by simp [Cur.ofSec])
       (by simpa [Cur.ofSec] using hinv)
